@@ -79,12 +79,14 @@ class Protocol(Component):
 
     def __process_packet(self, packet):
         packet = packet.decode('utf-8')
-        json.loads(packet)  # incomplete packet: ValueError, handled by add_buffer
+        data = json.loads(packet)  # incomplete packet: ValueError, handled by add_buffer
 
         # FIXME: the encoding of values is hardcoded to UTF-8.
         # at least protect against DoS attempts causing UnicodeDecodeError
 
-        if '"value":' in packet:  # FIXME: this can also be part of a call-value
+        # a result packet has a top-level "value" and no "name"; the text
+        # '"value":' may also occur inside the arguments of a call
+        if isinstance(data, dict) and 'value' in data and 'name' not in data:
             self.__process_packet_value(packet)
 
         else:
